@@ -795,6 +795,37 @@ func ruleBlock(c *Ctx) {
 		}
 	}
 	c.census("C-BLOCK", "client calls in module code", nClient, 3)
+	// waiting for an external process (or sleeping) while a lock may be held blocks every handler and every
+	// background analysis that needs that lock for as long as the process runs
+	nWait := 0
+	for _, f := range ci.funcs {
+		for _, b := range f.Blocks {
+			for _, ins := range b.Instrs {
+				call, ok := ins.(ssa.CallInstruction)
+				if !ok {
+					continue
+				}
+				cal := call.Common().StaticCallee()
+				if cal == nil || cal.Pkg == nil {
+					continue
+				}
+				q := cal.Pkg.Pkg.Path() + "." + cal.Name()
+				if cal.Signature.Recv() != nil {
+					q = cal.Pkg.Pkg.Path() + "." + strings.TrimPrefix(types.TypeString(cal.Signature.Recv().Type(), nil), "*"+cal.Pkg.Pkg.Path()+".") + "." + cal.Name()
+				}
+				switch q {
+				case "os/exec.Cmd.Run", "os/exec.Cmd.Output", "os/exec.Cmd.CombinedOutput", "os/exec.Cmd.Wait", "time.Sleep":
+				default:
+					continue
+				}
+				nWait++
+				held := ci.may[ins]
+				c.check(len(held) == 0, "C-BLOCK", funcName(f), "waits for "+q+" with no lock held", ins.Pos(),
+					"no lock may be held while the server waits for the external process", q+" waits for an external process while "+held.String()+" may be held: every handler and background analysis that needs that lock blocks until the process exits")
+			}
+		}
+	}
+	c.census("C-BLOCK", "calls that wait for an external process", nWait, 1)
 }
 
 // perDocumentCounter: map from a document URI to an integer.
